@@ -15,6 +15,9 @@
 (*     cond_ callbacks for the requested event)]                                         *)
 (* cfg.hold[s]   : BOOLEAN - calc_output() returns UNDEF in state s: "leave the output     *)
 (*                 unchanged"; everything else (on_enter events included) is as usual     *)
+(* cfg.nbad[s]   : BOOLEAN - the on_enter event of s fails in a non-fatal way (its        *)
+(*                 destination does not know the event type): event() raises, the         *)
+(*                 transition has taken place, the simulation goes on ("raised")           *)
 (* cfg.xchain[s] : BOOLEAN - the exit action of s sends an event to its own FSM when the *)
 (*     causing event's data has xc = 1: always a forbidden recursive event() call        *)
 (*     (property C11: the only permitted window is the entry action)                     *)
@@ -57,7 +60,7 @@ Result(ret, st, out, log) == [ret |-> ret, st |-> st, out |-> out, log |-> log]
 NewOut(cfg, st, out) == IF cfg.hold[st] THEN out ELSE st
 Finish(cfg, st, out, log) ==
     LET o == NewOut(cfg, st, out) IN
-    Result("true", st, o,
+    Result(IF cfg.on_enter[st] /\ cfg.nbad[st] THEN "raised" ELSE "true", st, o,
            log \o (IF out # o /\ cfg.on_output THEN <<Rec("out", 0, 0, 0, out, o, 0)>> ELSE <<>>)
                \o (IF cfg.on_enter[st] THEN <<Rec("on_enter", st, 0, 0, o, 0, 0)>> ELSE <<>>))
 
